@@ -626,6 +626,14 @@ class SpecEnv(object):
             c = z3.Select(m, q)
             return b2v(z3.ForAll([q], z3.Implies(z3.Select(h, q), z3.And(is_generic_exception_class(c), class_name(c) == q)),
                                  patterns=[z3.Select(h, q)]))
+        def p_case_of(ctx, which, v):
+            """x.upper() / x.lower() of a text or bytes value (uninterpreted, the same function the code model uses)"""
+            z = to_val(v)
+            t = Val.VStr(ops.TEXT_FMT(Val.VStr(seq_lit("." + which)), Val.VTuple(VL.cons(z, VL.nil))))
+            b = Val.VBytes(ops.TEXT_FMT(Val.VStr(seq_lit("bytes." + which)), Val.VTuple(VL.cons(z, VL.nil))))
+            return SVal(z3.If(Val.is_VBytes(z), b, t))
+        P["upper_of"] = lambda ctx, v: p_case_of(ctx, "upper", v)
+        P["lower_of"] = lambda ctx, v: p_case_of(ctx, "lower", v)
         P["generic_cache_ok"] = p_generic_cache_ok
         P["module_global"] = lambda ctx, modname, name: ctx.engine.global_obj(modname, name)
         P["tuple_of"] = lambda ctx, v: SVal(seq_of(z3.IntVal(0), to_val(v)))
@@ -766,6 +774,30 @@ class SpecEnv(object):
         def p_haskey(ctx, d, k):
             return b2v(z3.Select(ctx.engine.heap_get(ctx.st, d, "has").z, to_val(k)))
         P["haskey"] = p_haskey
+
+        def p_registrations_unchanged_except(ctx, d, name, addr):
+            """dict-of-dicts d: every pair (n, a) other than (name, addr) is a member now iff it was at entry, with the same value"""
+            e = ctx.engine
+            def view(st):
+                return (e.heap_get(st, d, "has").z, e.heap_get(st, d, "has2").z, e.heap_get(st, d, "map2").z)
+            h, h2, m2 = view(ctx.st)
+            h0, h20, m20 = view(ctx.pre)
+            n, a = z3.Const("q!n", Val), z3.Const("q!a", Val)
+            now_ = z3.And(z3.Select(h, n), z3.Select(z3.Select(h2, n), a))
+            was = z3.And(z3.Select(h0, n), z3.Select(z3.Select(h20, n), a))
+            same_ = z3.And(now_ == was, z3.Implies(now_, z3.Select(z3.Select(m2, n), a) == z3.Select(z3.Select(m20, n), a)))
+            return b2v(z3.ForAll([n, a], z3.Or(z3.And(n == to_val(name), a == to_val(addr)), same_)))
+        P["registrations_unchanged_except"] = p_registrations_unchanged_except
+
+        def p_times_ok(ctx, d):
+            """class invariant of the registry's table: every registration carries a time (a float object)"""
+            e = ctx.engine
+            h, h2, m2 = e.heap_get(ctx.st, d, "has").z, e.heap_get(ctx.st, d, "has2").z, e.heap_get(ctx.st, d, "map2").z
+            n, a = z3.Const("q!tn", Val), z3.Const("q!ta", Val)
+            return b2v(z3.ForAll([n, a], z3.Implies(z3.And(z3.Select(h, n), z3.Select(z3.Select(h2, n), a)),
+                                                    Val.is_VFloat(z3.Select(z3.Select(m2, n), a))),
+                                 patterns=[z3.Select(z3.Select(m2, n), a)]))
+        P["times_ok"] = p_times_ok
 
         def p_only_key(ctx, d, k):
             """the dict has no key other than k"""
@@ -974,6 +1006,8 @@ class Ctx(object):
             raise Unsupported("slicing in spec (use decomposition)")
         k = self.ev(e.slice)
         from .engine import Obj
+        if isinstance(o, Obj) and o.kind == "dict" and getattr(o, "valkind", None) == "dict":
+            return self.engine.inner_dict(o, to_val(k))
         if isinstance(o, Obj) and o.kind == "dict":
             return SVal(z3.Select(self.engine.heap_get(self.st, o, "map").z, to_val(k)))
         if isinstance(o, (tuple, list, dict)) and not is_sym(k):
